@@ -2,7 +2,7 @@ SPECIFICATION Spec
 CONSTANTS
   Isas = {"x64"}
   MaxBlocks = 2
-  Templates = {"o1", "o23", "jmp", "jmp1", "jcc", "call", "ret", "ret1", "ijmp", "icall", "z0", "d3"}
+  Templates = {"o1", "o23", "jmp", "jmp1", "jcc", "call", "ret", "ret1", "ijmp", "icall", "sysc", "z0", "d3"}
   Layouts = {"none"}
   FnTables = {"empty"}
   Names = {"fa"}
